@@ -865,18 +865,46 @@ impl Xot {
                 "Cannot replace document node".to_string(),
             ));
         }
-        // there should always be a parent as we're not document node
-        let parent = self.parent(replaced_node).unwrap();
-        // record previous sibling
-        let previous_node = self.previous_sibling(replaced_node);
-        // remove the replaced node, use low-level remove_tree to avoid
-        // text node reconciliation and document element detection
+        if !self.value(replaced_node).is_normal() {
+            return Err(Error::InvalidOperation(
+                "Cannot replace attribute or namespace node".to_string(),
+            ));
+        }
+        if self.parent(replaced_node).is_none() {
+            return Err(Error::InvalidOperation(
+                "Cannot replace a node that has no parent".to_string(),
+            ));
+        }
+        // check the replacing node before anything is touched
+        self.add_sibling_structure_check(replaced_node, replacing_node)?;
+
+        // move the replacing node into place and destroy the replaced
+        // subtree with low-level calls; text consolidation comes afterwards,
+        // so that text of the replaced node cannot leak into a neighbour
+        let old_prev_node = self.previous_sibling(replacing_node);
+        let old_next_node = self.next_sibling(replacing_node);
+        replacing_node.get().detach(self.arena_mut());
+        replaced_node
+            .get()
+            .checked_insert_before(replacing_node.get(), self.arena_mut())?;
         replaced_node.get().remove_subtree(self.arena_mut());
-        // now insert the replacing node
-        if let Some(previous_node) = previous_node {
-            self.insert_after(previous_node, replacing_node)?;
+
+        // consolidate around the new position
+        let prev_node = self.previous_sibling(replacing_node);
+        let next_node = self.next_sibling(replacing_node);
+        if self.remove_consolidate_text_nodes(prev_node, Some(replacing_node)) {
+            self.remove_consolidate_text_nodes(prev_node, next_node);
         } else {
-            self.prepend(parent, replacing_node)?;
+            self.remove_consolidate_text_nodes(Some(replacing_node), next_node);
+        }
+        // and where the replacing node came from, if that place still exists
+        if let (Some(old_prev_node), Some(old_next_node)) = (old_prev_node, old_next_node) {
+            if !self.is_removed(old_prev_node)
+                && !self.is_removed(old_next_node)
+                && self.next_sibling(old_prev_node) == Some(old_next_node)
+            {
+                self.remove_consolidate_text_nodes(Some(old_prev_node), Some(old_next_node));
+            }
         }
         Ok(())
     }
